@@ -163,10 +163,23 @@ static void run_solution(const orc::Sol& sol, const SolSpec& spec, uint64_t seed
         xs[ci] = (ci < sol.zero_coord_from || r.coin()) ? tiny : -tiny;
         LOG.count("points_with_a_coordinate_near_zero", 1);
       }
+      // structured and far points (box-shaped domains only): all coordinates equal; a coordinate equal to the length scale, half of it or twice it;
+      // small integers; the box stretched 5x (one point in ten) or 50x (one in fifty) - a fault may sit in a relation between the point and
+      // a parameter, or outside the few units around the origin where everything else is sampled
+      bool far_pt = false;
+      if (sol.point == orc::box_point) {
+        int sk = r.below(40);
+        long double Lp = setv.count("L") ? setv["L"] : setv.count("Lx") ? setv["Lx"] : 1.0L;
+        if (sk == 0) { for (int i = 1; i < sol.nargs; i++) xs[i] = xs[0]; LOG.count("points_with_all_coordinates_equal", 1); }
+        else if (sk == 1 || sk == 2) { static const long double F[] = {1.0L, 0.5L, 2.0L, -1.0L, 0.25L}; xs[r.below(sol.nargs)] = Lp * F[r.below(5)]; LOG.count("points_with_a_coordinate_tied_to_L", 1); }
+        else if (sk == 3) { xs[r.below(sol.nargs)] = (long double)(r.below(7) - 3); LOG.count("points_with_an_integer_coordinate", 1); }
+        else if (sk < 8) { for (int i = 0; i < sol.nargs; i++) xs[i] *= 5; far_pt = true; LOG.count("points_in_the_5x_box", 1); }
+        else if (sk == 8) { for (int i = 0; i < sol.nargs; i++) xs[i] *= 50; far_pt = true; LOG.count("points_in_the_50x_box", 1); }
+      }
       if (pt == 0 && have_prev) for (int i = 0; i < 4; i++) xs[i] = prev_pt[i];   // same point, new parameters
       for (int i = 0; i < 4; i++) prev_pt[i] = xs[i];
       have_prev = true;
-      bool irregular_pt = irregular_case;
+      bool irregular_pt = irregular_case || far_pt;
       for (int i = 0; i < sol.nargs; i++) if (fabsl(xs[i]) < 0.05L) irregular_pt = true;
       S a[4]; long double al[4];
       orc::Ctx c = base;
